@@ -42,7 +42,21 @@ func c03Spaces(tier string) []pairLeg {
 		add("mixed", Mixed())
 		add("large", Large().Filter(func(v V) bool { return ref.Nodes(v) <= 20 }))
 	}
+	// complete triples over arrays of numbers that are neighbouring float64 values
+	add("Uulp", UlpArrays())
 	return legs
+}
+
+// UlpArrays: arrays (length <= 2, at the root and under a key) over numbers one ulp apart.
+func UlpArrays() *TextSet {
+	return memoize("ulp-arrays", func() *TextSet {
+		alpha := []V{0.3, 0.30000000000000004, 9007199254740992.0, 9007199254740994.0}
+		var out []V
+		for _, a := range gen.Arrays(2, alpha) {
+			out = append(out, a, map[string]interface{}{"m": a})
+		}
+		return NewTextSet(out)
+	})
 }
 
 var c03EditAlpha = []V{1.0, 2.0, "a", []interface{}{1.0}}
@@ -53,9 +67,58 @@ type editCache struct {
 }
 
 // targetsFor returns the perturbed targets around a, by number of edits (deviations).
+// truncations returns the documents in which one array (at any depth, up to 24 elements) is cut
+// to a proper prefix or suffix ("shortened arrays").
+func truncations(v V) []V {
+	var out []V
+	var rec func(cur V, rebuild func(V) V)
+	rec = func(cur V, rebuild func(V) V) {
+		switch c := cur.(type) {
+		case []interface{}:
+			if len(c) >= 2 && len(c) <= 24 {
+				for k := 0; k < len(c); k++ {
+					out = append(out, rebuild(append([]interface{}{}, c[:k]...)))
+					if k > 0 {
+						out = append(out, rebuild(append([]interface{}{}, c[k:]...)))
+					}
+				}
+			}
+			for i := range c {
+				i := i
+				rec(c[i], func(x V) V {
+					n := append([]interface{}{}, c...)
+					n[i] = x
+					return rebuild(n)
+				})
+			}
+		case map[string]interface{}:
+			for _, k := range ref.SortedKeys(c) {
+				k := k
+				rec(c[k], func(x V) V {
+					n := map[string]interface{}{}
+					for kk, vv := range c {
+						n[kk] = vv
+					}
+					n[k] = x
+					return rebuild(n)
+				})
+			}
+		}
+	}
+	rec(v, func(x V) V { return x })
+	return out
+}
+
 func targetsFor(aV V, deviations int) []string {
 	seen := map[string]bool{}
 	var out []string
+	for _, e := range truncations(aV) {
+		t := ref.JSON(e)
+		if !seen[t] {
+			seen[t] = true
+			out = append(out, t)
+		}
+	}
 	frontier := []V{aV}
 	for d := 0; d < deviations; d++ {
 		var next []V
@@ -99,7 +162,7 @@ func init() {
 			return []string{"accept", "reject: before mismatch", "reject: after mismatch", "reject: remove mismatch", "reject: boundary mismatch", "reject: index beyond array", "reject: path missing", "reject: wrong container kind"}
 		},
 		Assume: []string{"hunk semantics = Appendix A of DESIGN.md (written from the format documentation)", "strict list-mode diffs only"},
-		Budget: budget(5*time.Minute, 45*time.Minute),
+		Budget: budget(8*time.Minute, 45*time.Minute),
 	})
 }
 
